@@ -45,6 +45,11 @@ def listval(l):
     return tuple(l)
 
 
+def setseq(s, kind=None):
+    """members of a set as a tuple (order unspecified natively)"""
+    return tuple(s)
+
+
 def unfold(fn, *args):
     return True
 
